@@ -15,7 +15,7 @@ VARIABLES l,      \* next trace line
           base,   \* abstract state at the last point where everything was durable (Flush/Close/reopen)
           wents,  \* entries committed since base: [e |-> entry, acked |-> durability acknowledged]
           durn,   \* C13: smallest prefix length the last durable-only read is consistent with
-          ver     \* C22: file set of the last installed version the driver saw
+          ver     \* C39: pinned physical table files, as pairs <<handle, file number>>
 cv == <<base, wents, durn, ver>>
 vars == <<l, cur, hs, base, wents, durn, ver>>
 
@@ -155,8 +155,7 @@ CrashProbe == Is("crashprobe") /\ CrashOK(Ev) /\ VerOK(Ev) /\ UNCHANGED <<cur, h
 (* the run itself continues from a crash: every handle is gone *)
 Reopen == Is("reopen") /\ Ev.ok /\ CrashOK(Ev) /\ VerOK(Ev)
           /\ cur' = StOf(Ev.state) /\ base' = StOf(Ev.state) /\ wents' = <<>> /\ hs' = <<>> /\ durn' = 0
-          /\ ver' = IF Ev.hasfiles THEN ToSet(Ev.files) ELSE ver
-Version == Is("version") /\ ver' = ToSet(Ev.files) /\ UNCHANGED <<cur, hs, base, wents, durn>>
+          /\ ver' = {}
 (* C13: an OnlyReadGuaranteedDurable iterator shows the model state after some prefix of the history *)
 DurPrefixes(st) == {n \in 0..Len(wents) : st = ApplyEntries(base, wents, 1, n)}
 DurRead == Is("durread")
@@ -190,13 +189,43 @@ ScanInt == Is("scanint") /\ (Ev.src = 0 \/ Has(Ev.src))
            /\ (Chk("scanint") =>
                  RestrictSt(StOf(Ev.state), <<<<Ev.a, Ev.b>>>>) = RestrictSt(View(Ev.src), <<<<Ev.a, Ev.b>>>>))
            /\ UNCHANGED <<cur, hs, cv>>
+(* ---- physical structure (C15, C39) ---- *)
+(* files: <<num, level, lo, hi, seqlo, seqhi>> (hi inclusive); keys: <<ukey, seq, height, level>>, height *)
+(* orders positions: memtable queue > L0 sublevels (higher = newer) > L1 > ... > L6                      *)
+LsmOK(ev) ==
+  LET F == ToSet(ev.files)
+      K == ToSet(ev.keys) IN
+  (* files of one level >= 1 never overlap *)
+  /\ \A f, g \in F : (f # g /\ f[2] = g[2] /\ f[2] >= 1) => (f[4] < g[3] \/ g[4] < f[3])
+  (* a newer version of a user key is never in an older position *)
+  /\ \A a, b \in K : (a[1] = b[1] /\ a[3] > b[3]) => a[2] > b[2]
+  (* every key inside the LSM lies within the recorded bounds and sequence range of a table of its level *)
+  /\ \A a \in K : a[4] >= 0 =>
+        \E f \in F : f[2] = a[4] /\ f[3] <= a[1] /\ a[1] <= f[4] /\ f[5] <= a[2] /\ a[2] <= f[6]
+Lsm == Is("lsm") /\ (Chk("lsm") => LsmOK(Ev))
+       (* C39: a table file that was removed from the directory is never referenced by a version again *)
+       /\ (Chk("c39") => {p[2] : p \in {q \in ver : q[1] = 0}} \cap ToSet(Ev.phys) = {})
+       /\ UNCHANGED <<cur, hs, cv>>
+Pin == Is("pin") /\ ver' = ver \cup {<<Ev.h, f>> : f \in ToSet(Ev.files)} /\ UNCHANGED <<cur, hs, base, wents, durn>>
+Unpin == Is("unpin") /\ ver' = {p \in ver : p[1] # Ev.h} /\ UNCHANGED <<cur, hs, base, wents, durn>>
+(* C39: a table file leaves the directory only when neither the current version nor a pinned one references it *)
+(* (handle 0 in ver = "removed from the directory") *)
+Removed == Is("removed")
+           /\ (Chk("c39") => Ev.num \notin {p[2] : p \in {q \in ver : q[1] # 0}})
+           /\ ver' = ver \cup {<<0, Ev.num>>}
+           /\ UNCHANGED <<cur, hs, base, wents, durn>>
+(* ... and with no handle open and deletions processed, the directory holds exactly the live files *)
+DirList == Is("dirlist")
+           /\ (Chk("c39") => (ToSet(Ev.ssts) = ToSet(Ev.live) /\ Ev.blobs = Ev.liveblobs))
+           /\ UNCHANGED <<cur, hs, cv>>
+
 (* free-form annotations *)
 Note == Is("note") /\ UNCHANGED <<cur, hs, cv>>
 
 TraceNext == \/ Reset \/ Commit \/ Ingest \/ IngestExcise \/ Excise \/ BatchCommit \/ DurablePoint \/ SyncWait \/ Maint
              \/ Snap \/ Efos \/ BatchNew \/ BatchOp \/ Close \/ Get \/ Scan \/ FGet \/ FScan
              \/ NewIter \/ IterOp \/ SetBounds \/ SetOpts \/ CloneIt
-             \/ CrashProbe \/ Reopen \/ Version \/ DurRead \/ CleanReopen \/ CloseDB \/ Checkpoint \/ ScanInt \/ Ratchet \/ Note
+             \/ CrashProbe \/ Reopen \/ DurRead \/ Lsm \/ Pin \/ Unpin \/ Removed \/ DirList \/ CleanReopen \/ CloseDB \/ Checkpoint \/ ScanInt \/ Ratchet \/ Note
 TraceSpec == TraceInit /\ [][TraceNext]_vars
 
 (* acceptance: high-water mark of consumed lines *)
